@@ -354,14 +354,7 @@ func Point(kind OpKind, obj any, enabled func() bool) {
 	}
 	// the epoch advances when the operation is actually performed (the thread proceeds), not
 	// when it is requested: a yielding thread must see steps that happen after it yielded
-	proceed := func() {
-		if kind != OpYield {
-			s.epoch++
-		}
-		if s.TraceOn {
-			s.Trace = append(s.Trace, fmt.Sprintf("%d:%s", t.ID, kind))
-		}
-	}
+	proceed := func() { s.proceed(t, kind) }
 	// fast path: nobody else can run
 	if s.live == 1 && !s.stopReq && (enabled == nil || enabled()) && kind != OpYield && kind != OpQuiesce && !(s.TimerAlts && s.armedTimers() > 0) && s.Step < s.Horizon {
 		proceed()
@@ -387,6 +380,19 @@ func Point(kind OpKind, obj any, enabled func() bool) {
 		panic(killSentinel{})
 	}
 	proceed()
+}
+
+// proceed: the operation of thread t is performed now (a method, not a closure of Point: the
+// go:norace pragma does not extend to closures, and the race build would report the scheduler's
+// own bookkeeping)
+//go:norace
+func (s *Sched) proceed(t *Thread, kind OpKind) {
+	if kind != OpYield {
+		s.epoch++
+	}
+	if s.TraceOn {
+		s.Trace = append(s.Trace, fmt.Sprintf("%d:%s", t.ID, kind))
+	}
 }
 
 //go:norace
